@@ -14,6 +14,7 @@ def c03(tier, rep):
     rep.extra["rule"] = ("menu: every sequence of <= N menu lines (distinct = distinct inputs, non-trivial = non-empty); traces: corpus + generated + "
                          "noisy documents (distinct by source text, non-trivial = more than one line)")
     E.menu(rep, M.BASE, 3 if tier == "quick" else 4, invariants=["Inv_C03"], label="base")
+    E.grow(rep, M.STRUCT, [([], 6 if tier == "quick" else 7), (PFX_TWO_RULES, 2)], invariants=["Inv_C03"], label="struct")
     E.traces(rep, E.record_all(std_sources(tier, 300, 3000)), "corpus+gen+noisy")
 
 
@@ -54,8 +55,9 @@ def c12(tier, rep):
     _rows(rep, 4 if tier == "quick" else 6, (124, 92, 110, 12288, 233), (160,), "exotic_blanks", ("count", "text", "col", "ast", "exception"))
     E.menu(rep, M.TABLES, 4 if tier == "quick" else 5, max_errs=3, invariants=["Inv_C12"], label="tables")
     # ragged tables of up to 4 rows with 1, 2 and 3 cells: data table after a step, examples table after its header line
-    E.menu(rep, [M.TABLES[i] for i in (0, 1, 2, 3, 4, 5, 7, 12, 13)], 4, max_errs=3, invariants=["Inv_C12"], label="ragged-data", prefix=[1, 2, 3])
-    E.menu(rep, [M.TABLES[i] for i in (0, 1, 2, 3, 4, 5, 7, 12)], 3 if tier == "quick" else 4, max_errs=3, invariants=["Inv_C12"], label="ragged-examples", prefix=[1, 2, 3, 4])
+    E.menu(rep, [M.TABLES[i] for i in (0, 1, 2, 3, 4, 5, 7, 12, 13, 14, 15)], 4 if tier == "thorough" else 3, max_errs=3, invariants=["Inv_C12"], label="ragged-data", prefix=[1, 2, 3])
+    E.menu(rep, [M.TABLES[i] for i in (0, 1, 2, 3, 4, 5, 7, 12, 14)], 3 if tier == "quick" else 4, max_errs=3, invariants=["Inv_C12"], label="ragged-examples", prefix=[1, 2, 3, 4])
+    _rows(rep, 5 if tier == "quick" else 6, (124, 92, 110, 116, 32), (32,), "letter_t", ("count", "text", "col", "ast", "exception"))
     E.traces(rep, E.record_all(std_sources(tier, 300, 3000)), "corpus+gen+noisy")
 
 
@@ -224,7 +226,7 @@ def c05(tier, rep):
         rep.violation({"kind": "spec-invariant", "invariant": inv}, {"engine": "MC_Keywords", "what": f"{inv} violated", "tlc_tail": res.out[-3000:]})
     # every keyword as a document through the real parser
     cases = K.all_cases(1 if tier == "quick" else 4) + K.foreign_cases(SEED, 300 if tier == "quick" else 3000) + K.header_cases(SEED, 400 if tier == "quick" else None)
-    cases += K.star_cases()
+    cases += K.star_cases() + K.english_cases()
     E.traces(rep, E.record_all(cases, listing=True), "keywords+foreign+headers+star", batch=2500)
     # the same documents through ONE re-used matcher: the dialect in force is the configured default unless the document says otherwise
     import sessions as S
@@ -251,6 +253,8 @@ def c05(tier, rep):
 PFX_TWO_RULES = [1, 3, 6, 2, 3, 7, 4, 6, 2]        # Feature, Background, Given; Rule, Background, And, Scenario, Given; Rule
 PFX_TAGGED = [10, 1, 10, 2, 10, 4, 6, 10, 5, 8, 9]  # tags at feature, rule, scenario and examples level, one example row
 PFX_OUTLINE = [1, 3, 6, 4, 6, 7, 5, 8]              # Feature, Background, Given; Scenario, Given, And; Examples, header
+PFX_RULE_BG = [1, 2, 3, 6, 4, 6]                    # Feature, Rule, Background, Given; Scenario, Given
+PFX_TABLELESS = [1, 4, 6, 10, 5]                    # Feature, Scenario, Given; tags, Examples (no table yet)
 
 
 def _compile_family(tier, rep, inv):
@@ -258,9 +262,11 @@ def _compile_family(tier, rep, inv):
                          "free-text readings pruned) up to N lines, and up to k more lines after deep prefixes (two rules with backgrounds; tags at all "
                          "four levels; outline with background); distinct documents, non-trivial = at least one pickle; plus corpus/generated traces")
     q = tier == "quick"
-    E.grow(rep, M.STRUCT, [([], 6 if q else 8), (PFX_TWO_RULES, 3 if q else 4), (PFX_TAGGED, 2 if q else 3), (PFX_OUTLINE, 2 if q else 4)],
+    E.grow(rep, M.STRUCT, [([], 6 if q else 8), (PFX_TWO_RULES, 3 if q else 4), (PFX_TAGGED, 2 if q else 3), (PFX_OUTLINE, 2 if q else 4),
+                           (PFX_RULE_BG, 2 if q else 3), (PFX_TABLELESS, 3 if q else 4)],
            invariants=[inv], label="struct")
     E.traces(rep, E.record_all(std_sources(tier, 300, 3000)), "corpus+gen+noisy")
+    E.compiler_reuse_pass(rep, std_sources(tier, 150, 1500))
 
 
 def c06(tier, rep):
@@ -353,6 +359,20 @@ def c17(tier, rep):
             if cli != json.loads(json.dumps(direct)):
                 rep.violation({"kind": "cli"}, {"engine": "cli", "what": "scripts/generate_events.py output differs from GherkinEvents.enum", "flags": flags,
                                                 "first": next(((a, b) for a, b in zip(cli, direct) if a != b), (len(cli), len(direct)))})
+        # the uri is the path exactly as given (relative spellings included)
+        os.makedirs(os.path.join(d, "sub"), exist_ok=True)
+        with open(os.path.join(d, "sub", "x.feature"), "w") as fh:
+            fh.write("Feature: rel\n  Scenario: s\n")
+        import subprocess, sys as _sys
+        from common import PYROOT
+        for rel in ("./sub/x.feature", "sub//x.feature", "sub/./x.feature", "sub/x.feature"):
+            pr = subprocess.run([_sys.executable, os.path.join(PYROOT, "scripts", "generate_events.py"), rel], cwd=d, capture_output=True, text=True,
+                                env=dict(os.environ, PYTHONPATH=PYROOT, PYTHONDONTWRITEBYTECODE="1"), timeout=60)
+            evs = [json.loads(l) for l in pr.stdout.splitlines() if l.strip()]
+            uris = [e.get("source", e.get("gherkinDocument", e.get("pickle", {}))).get("uri") for e in evs]
+            rep.case(("cli-uri", rel))
+            if pr.returncode != 0 or not uris or any(u != rel for u in uris):
+                rep.violation({"kind": "cli-uri"}, {"engine": "cli", "what": "the uri of the envelopes is not the path as given", "given": rel, "uris": uris, "stderr": pr.stderr[-300:]})
     finally:
         shutil.rmtree(d, ignore_errors=True)
 
